@@ -4,6 +4,8 @@ import Chess.Lemmas.Generated
 import Chess.Lemmas.Reach
 import Chess.Lemmas.Legal
 import Chess.Lemmas.Perft
+import Chess.Lemmas.FnsEquiv.Position
+import Chess.Lemmas.FnsEquiv.PositionAdd
 
 /-!
 # C01 — generated moves are exactly the legal moves of chess
@@ -144,3 +146,13 @@ end Chess.Props.C01
 #print axioms Chess.Props.C01.shortcut_is_sound
 #print axioms Chess.Props.C01.start_position_qualifies
 #print axioms Chess.Props.C01.perft_counts_are_the_rules'
+
+/-! ### Translation tie (C01.T)
+`tools/translate.py` regenerates `Chess/Gen/Fns.lean` from the Rust text of the leaf functions on every run (a
+parser, not patterns); the theorems below — proved in `Chess/Lemmas/FnsEquiv/*` and re-checked by the kernel whenever
+the generated term changes — say that the TRANSLATED code equals the hand-written model this file's theorems are
+about, for the generator's square arithmetic (`Position::new`, `Position::add`, the rook home squares). A rewrite of the Rust text that keeps the meaning leaves them true; one that changes it breaks the
+theorem named after the function. -/
+#print axioms Chess.FnsEquiv.Position_new_eq
+#print axioms Chess.FnsEquiv.Position_add_eq
+#print axioms Chess.FnsEquiv.Position_ROOKS_eq
